@@ -1,3 +1,841 @@
+//! C08 - Downlink local state equals the fold of what it received.
+//!
+//! Engine E2/E4: bounded-exhaustive enumeration of input sequences (notifications from the lane
+//! and local writes through the handle), smallest first, against a reference fold, for the
+//! stand-alone client downlinks (`swimos_downlink`) and the agent-hosted downlinks
+//! (`swimos_agent::agent_model::downlink::hosted`), both kinds (value, map), all four settings of
+//! (`events_when_not_synced`, `terminate_on_unlinked`).
+//!
+//! Legs
+//! * `legal`     - breadth-first over the sequences a well-behaved link can produce (10-line
+//!                 acceptor inside the reference): full oracle on each implementation plus the
+//!                 differential law client == hosted. A sequence is extended only while it still
+//!                 passes (every extension of a failing prefix fails the same way).
+//! * `redundant` - client only: sequences that additionally contain inputs a lane cannot produce
+//!                 but the client state machine documents as ignored (repeated `linked`, repeated
+//!                 `synced`, stray notifications while unlinked).
+//! * `btree`     - hosted map downlink with the ordered backing (other `drop_or_take` path).
+//! * `robust`    - every sequence over the whole alphabet (legal or not): no panic, quiescence.
+
+mod client;
+mod hosted;
+mod model;
+mod wire;
+
+use hosted::Backing;
+use model::*;
+use serde_json::{json, Value};
+use std::collections::BTreeMap;
+use std::panic::{catch_unwind, AssertUnwindSafe};
+use std::sync::atomic::{AtomicBool, Ordering};
+use std::sync::Mutex;
+use std::time::Instant;
+use vcommon::{Ctx, Leg};
+use wire::Wire;
+
+// ------------------------------------------------------------------------------------------------
+// running one case
+
+fn panic_text(p: Box<dyn std::any::Any + Send>) -> String {
+    if let Some(s) = p.downcast_ref::<&str>() {
+        s.to_string()
+    } else if let Some(s) = p.downcast_ref::<String>() {
+        s.clone()
+    } else {
+        "panic".into()
+    }
+}
+
+fn run_one(imp: Imp, kind: Kind, cfg: Cfg, seq: &[Sym], w: &Wire, backing: Backing) -> RunOut {
+    run_mode(imp, kind, cfg, seq, w, backing, false)
+}
+
+/// `burst`: all inputs are written before the implementation is polled at all (it finds every
+/// frame in its buffer at once); the run then has a single step holding every callback.
+fn run_mode(imp: Imp, kind: Kind, cfg: Cfg, seq: &[Sym], w: &Wire, backing: Backing, burst: bool) -> RunOut {
+    let r = catch_unwind(AssertUnwindSafe(|| match imp {
+        Imp::Client => client::run(kind, cfg, seq, w, burst),
+        Imp::Hosted => hosted::run(kind, cfg, seq, w, backing, burst),
+    }));
+    match r {
+        Ok(o) => o,
+        Err(p) => RunOut { panic: Some(panic_text(p)), ..Default::default() },
+    }
+}
+
+#[derive(Clone, Copy, PartialEq, Eq, Debug, PartialOrd, Ord)]
+enum Target {
+    One(Imp),
+    Diff,
+    Burst(Imp),
+}
+
+impl Target {
+    fn name(self) -> &'static str {
+        match self {
+            Target::One(i) => i.name(),
+            Target::Diff => "client-vs-hosted",
+            Target::Burst(Imp::Client) => "client-burst",
+            Target::Burst(Imp::Hosted) => "hosted-burst",
+        }
+    }
+    fn parse(s: &str) -> Option<Target> {
+        match s {
+            "client-vs-hosted" => Some(Target::Diff),
+            "client-burst" => Some(Target::Burst(Imp::Client)),
+            "hosted-burst" => Some(Target::Burst(Imp::Hosted)),
+            other => Imp::parse(other).map(Target::One),
+        }
+    }
+}
+
+#[derive(Clone, Copy)]
+struct Mode {
+    kind: Kind,
+    tolerant: bool,
+    backing: Backing,
+}
+
+/// Does `seq` fail for `target` under `cfg`? Returns the first mismatch.
+fn fails(target: Target, mode: Mode, cfg: Cfg, seq: &[Sym], w: &Wire, runs: &mut u64) -> Option<Mismatch> {
+    match target {
+        Target::One(imp) => {
+            *runs += 1;
+            let out = run_one(imp, mode.kind, cfg, seq, w, mode.backing);
+            check(mode.kind, cfg, imp, seq, &out, mode.tolerant).mismatch
+        }
+        Target::Diff => {
+            *runs += 2;
+            let a = run_one(Imp::Client, mode.kind, cfg, seq, w, mode.backing);
+            let ca = check(mode.kind, cfg, Imp::Client, seq, &a, false);
+            let b = run_one(Imp::Hosted, mode.kind, cfg, seq, w, mode.backing);
+            let cb = check(mode.kind, cfg, Imp::Hosted, seq, &b, false);
+            if !ca.legal || ca.mismatch.is_some() || cb.mismatch.is_some() {
+                return None;
+            }
+            differ(&a, &b)
+        }
+        Target::Burst(imp) => {
+            *runs += 2;
+            let a = run_one(imp, mode.kind, cfg, seq, w, mode.backing);
+            let ca = check(mode.kind, cfg, imp, seq, &a, false);
+            if !ca.legal || ca.mismatch.is_some() || seq.iter().any(|s| s.is_local()) {
+                return None;
+            }
+            let b = run_mode(imp, mode.kind, cfg, seq, w, mode.backing, true);
+            burst_differs(&a, &b)
+        }
+    }
+}
+
+/// Law `burst_eq_stepwise`: callbacks fire in notification order whatever the pacing - the
+/// callbacks of a run that found all frames in its buffer at once equal the concatenation of the
+/// callbacks of the run that was given them one at a time.
+fn burst_differs(stepwise: &RunOut, burst: &RunOut) -> Option<Mismatch> {
+    if let Some(p) = &burst.panic {
+        return Some(Mismatch { step: 0, desc: Desc { law: "no_panic", at: "burst".into(), field: "panic" }, expected: "no panic".into(), observed: p.clone() });
+    }
+    if burst.hang {
+        return Some(Mismatch { step: 0, desc: Desc { law: "terminates", at: "burst".into(), field: "hang" }, expected: "quiescence".into(), observed: "poll budget exhausted".into() });
+    }
+    let flat: Vec<Cb> = stepwise.steps.iter().flatten().cloned().collect();
+    let got: Vec<Cb> = burst.steps.iter().flatten().cloned().collect();
+    if flat == got {
+        return None;
+    }
+    let j = (0..flat.len().max(got.len())).find(|j| flat.get(*j) != got.get(*j)).unwrap();
+    let at = match (flat.get(j), got.get(j)) {
+        (Some(a), Some(b)) if a.label() == b.label() => a.label().to_string(),
+        (a, b) => format!("stepwise:{}/burst:{}", a.map(|x| x.label()).unwrap_or("none"), b.map(|x| x.label()).unwrap_or("none")),
+    };
+    Some(Mismatch {
+        step: stepwise.steps.len().saturating_sub(1),
+        desc: Desc { law: "burst_eq_stepwise", at, field: "trace" },
+        expected: format!("stepwise {:?}", flat),
+        observed: format!("burst {:?}", got),
+    })
+}
+
+// ------------------------------------------------------------------------------------------------
+// signatures
+
+#[derive(Clone, Debug)]
+struct Pattern {
+    target: Target,
+    kind: Kind,
+    backing_btree: bool,
+    cfgs: [bool; 4],
+    classes: Vec<&'static str>,
+    desc: Desc,
+    sig: String,
+}
+
+fn is_subseq(pat: &[&'static str], seq: &[Sym]) -> bool {
+    let mut i = 0;
+    for s in seq {
+        if i < pat.len() && s.class() == pat[i] {
+            i += 1;
+        }
+    }
+    i == pat.len()
+}
+
+fn cfg_set_text(set: [bool; 4]) -> String {
+    // CFGS order: (ewns,term) = (f,t) (f,f) (t,t) (t,f)
+    let has = |e: bool, t: bool| set[CFGS.iter().position(|c| c.ewns == e && c.term == t).unwrap()];
+    let es: Vec<bool> = [false, true].into_iter().filter(|e| has(*e, false) || has(*e, true)).collect();
+    let ts: Vec<bool> = [false, true].into_iter().filter(|t| has(false, *t) || has(true, *t)).collect();
+    let product = es.iter().all(|e| ts.iter().all(|t| has(*e, *t)));
+    if product {
+        let f = |v: &Vec<bool>| if v.len() == 2 { "*".to_string() } else { v[0].to_string() };
+        format!("ewns:{},term:{}", f(&es), f(&ts))
+    } else {
+        CFGS.iter().zip(set.iter()).filter(|(_, b)| **b).map(|(c, _)| format!("(ewns:{},term:{})", c.ewns, c.term)).collect::<Vec<_>>().join("|")
+    }
+}
+
+struct Finding {
+    sig: String,
+    /// ordering key for the deterministic choice of the reported representative
+    key: (usize, String, usize),
+    detail: Value,
+    patterns: Vec<Pattern>,
+}
+
+/// Reduce a failing case (in one configuration) to a 1-minimal sequence with the smallest
+/// arguments that fails with the same descriptor; also the set of configurations in which that
+/// sequence fails the same way.
+fn reduce(target: Target, mode: Mode, cfg_idx: usize, seq: &[Sym], m: &Mismatch, w: &Wire, runs: &mut u64) -> (Vec<Sym>, Mismatch, [bool; 4]) {
+    let cfg = CFGS[cfg_idx];
+    let same = |cand: &[Sym], runs: &mut u64| fails(target, mode, cfg, cand, w, runs).filter(|x| x.desc == m.desc);
+    let mut cur: Vec<Sym> = seq[..(m.step + 1).min(seq.len())].to_vec();
+    if same(&cur, runs).is_none() {
+        cur = seq.to_vec();
+    }
+    let mut last = m.clone();
+    loop {
+        let mut changed = false;
+        let mut i = 0;
+        while i < cur.len() {
+            let mut cand = cur.clone();
+            cand.remove(i);
+            if let Some(x) = same(&cand, runs) {
+                cur = cand;
+                last = x;
+                changed = true;
+            } else {
+                i += 1;
+            }
+        }
+        if !changed {
+            break;
+        }
+    }
+    // smallest arguments: replace each symbol by the first symbol of its class that still fails
+    let alpha = alphabet(mode.kind, true);
+    for i in 0..cur.len() {
+        for a in alpha.iter().filter(|a| a.class() == cur[i].class()) {
+            if *a == cur[i] {
+                break;
+            }
+            let mut cand = cur.clone();
+            cand[i] = *a;
+            if let Some(x) = same(&cand, runs) {
+                cur = cand;
+                last = x;
+                break;
+            }
+        }
+    }
+    let mut set = [false; 4];
+    for (j, c) in CFGS.iter().enumerate() {
+        set[j] = j == cfg_idx || fails(target, mode, *c, &cur, w, runs).map(|x| x.desc == m.desc).unwrap_or(false);
+    }
+    (cur, last, set)
+}
+
+/// Canonical identity of a failure: reduce it in its own configuration, then in every other
+/// configuration in which the reduced sequence still fails, and take the overall smallest
+/// reproducer as the representative. The signature is built from the representative only:
+/// descriptor of the first disagreement, the classes of inputs other than linked/synced/upd/ev
+/// that it needs ("culprits"), and the configurations in which it fails. Any failure whose
+/// 1-minimal reproducer needs a local write is one family: the fold of *notifications* is
+/// disturbed by a local write.
+fn minimise(target: Target, mode: Mode, cfg_idx: usize, seq: &[Sym], m: &Mismatch, leg: &str, w: &Wire, runs: &mut u64) -> Finding {
+    let (local, local_last, local_set) = reduce(target, mode, cfg_idx, seq, m, w, runs);
+    let mut best = (local.clone(), local_last.clone(), local_set, cfg_idx);
+    for j in 0..CFGS.len() {
+        if j == cfg_idx || !local_set[j] {
+            continue;
+        }
+        if let Some(mj) = fails(target, mode, CFGS[j], &local, w, runs).filter(|x| x.desc == m.desc) {
+            let (c, l, s) = reduce(target, mode, j, &local, &mj, w, runs);
+            if (c.len(), seq_text(&c), j) < (best.0.len(), seq_text(&best.0), best.3) {
+                best = (c, l, s, j);
+            }
+        }
+    }
+    let (cur, last, set, _) = best;
+    let mut culprits: Vec<&'static str> = cur.iter().map(|s| s.class()).filter(|c| !matches!(*c, "linked" | "synced" | "upd" | "ev")).collect();
+    culprits.sort();
+    culprits.dedup();
+    let classes: Vec<&'static str> = cur.iter().map(|s| s.class()).collect();
+    let panicky = m.desc.law == "no_panic" || m.desc.law == "terminates";
+    let mut sig = if culprits.contains(&"local_write") && !panicky {
+        format!("impl={} kind={} law={} cause=local_write (a local write through the handle changes what the callbacks report)", target.name(), mode.kind.name(), m.desc.law)
+    } else {
+        format!(
+            "impl={} kind={} law={} at={} field={} culprits={} cfg={}",
+            target.name(),
+            mode.kind.name(),
+            m.desc.law,
+            m.desc.at,
+            m.desc.field,
+            if culprits.is_empty() { "-".to_string() } else { culprits.join("+") },
+            cfg_set_text(set)
+        )
+    };
+    if panicky {
+        sig.push_str(&format!(" shape={}", classes.join(",")));
+    }
+    if mode.backing == Backing::BTree {
+        sig.push_str(" backing=btree");
+    }
+    let first_cfg = set.iter().position(|b| *b).unwrap();
+    let detail = json!({
+        "leg": leg,
+        "target": target.name(),
+        "kind": mode.kind.name(),
+        "tolerant": mode.tolerant,
+        "backing": if mode.backing == Backing::BTree { "btree" } else { "hash" },
+        "cfg": {"ewns": CFGS[first_cfg].ewns, "term": CFGS[first_cfg].term},
+        "seq": seq_text(&cur),
+        "failing_step": last.step,
+        "expected": last.expected,
+        "observed": last.observed,
+        "fails_in_cfgs": CFGS.iter().zip(set.iter()).filter(|(_, b)| **b).map(|(c, _)| c.text()).collect::<Vec<_>>(),
+        "found_as": format!("{} [{}]", seq_text(seq), CFGS[cfg_idx].text()),
+        "what": format!("{} {} downlink, inputs [{}] with {}: expected {} but observed {}", target.name(), mode.kind.name(), seq_text(&cur), CFGS[first_cfg].text(), last.expected, last.observed),
+        "input": format!("{} [{}]", seq_text(&cur), CFGS[first_cfg].text()),
+    });
+    let bt = mode.backing == Backing::BTree;
+    let mut patterns = vec![Pattern { target, kind: mode.kind, backing_btree: bt, cfgs: set, classes, desc: m.desc.clone(), sig: sig.clone() }];
+    let local_classes: Vec<&'static str> = local.iter().map(|s| s.class()).collect();
+    if local_classes != patterns[0].classes || local_set != set {
+        patterns.push(Pattern { target, kind: mode.kind, backing_btree: bt, cfgs: local_set, classes: local_classes, desc: m.desc.clone(), sig: sig.clone() });
+    }
+    Finding { key: (cur.len(), seq_text(&cur), first_cfg), patterns, sig, detail }
+}
+
+// ------------------------------------------------------------------------------------------------
+// packed sequences
+
+const CLIENT_OK: u64 = 1;
+const HOSTED_OK: u64 = 2;
+const DIFF_OK: u64 = 4;
+const BURST_C_OK: u64 = 8;
+const BURST_H_OK: u64 = 16;
+
+#[derive(Clone, Copy)]
+struct Node(u64);
+
+impl Node {
+    fn root(mask: u64) -> Node {
+        Node(mask << 4)
+    }
+    fn len(self) -> usize {
+        (self.0 & 15) as usize
+    }
+    fn mask(self) -> u64 {
+        (self.0 >> 4) & 31
+    }
+    fn with_mask(self, m: u64) -> Node {
+        Node((self.0 & !(31 << 4)) | (m << 4))
+    }
+    fn push(self, sym_idx: usize) -> Node {
+        let l = self.len();
+        Node(((self.0 & !15) | (l as u64 + 1)) | ((sym_idx as u64) << (9 + 5 * l)))
+    }
+    fn syms(self, alpha: &[Sym]) -> Vec<Sym> {
+        (0..self.len()).map(|i| alpha[((self.0 >> (9 + 5 * i)) & 31) as usize]).collect()
+    }
+}
+
+// ------------------------------------------------------------------------------------------------
+// breadth-first leg
+
+struct Bfs<'a> {
+    name: &'a str,
+    mode: Mode,
+    local: bool,
+    depth: usize,
+    /// which targets are checked: CLIENT_OK | HOSTED_OK | DIFF_OK
+    mask: u64,
+    cap_s: f64,
+}
+
+#[derive(Default, Clone)]
+struct Stats {
+    states: u64,
+    evals: u64,
+    transitions: u64,
+    nontrivial: u64,
+    compared: u64,
+    failing_prefixes: u64,
+    attributed: u64,
+    minimise_runs: u64,
+}
+
+impl Stats {
+    fn add(&mut self, o: &Stats) {
+        self.states += o.states;
+        self.evals += o.evals;
+        self.transitions += o.transitions;
+        self.nontrivial += o.nontrivial;
+        self.compared += o.compared;
+        self.failing_prefixes += o.failing_prefixes;
+        self.attributed += o.attributed;
+        self.minimise_runs += o.minimise_runs;
+    }
+}
+
+/// An event arrived while linked but not yet synced and the link then synced: the state built
+/// before sync is observed at `on_synced`.
+fn presync_observed(seq: &[Sym]) -> bool {
+    let mut linked = false;
+    let mut synced = false;
+    let mut ev = false;
+    for s in seq {
+        match s {
+            Sym::Linked => {
+                if !linked {
+                    linked = true;
+                    synced = false;
+                    ev = false;
+                }
+            }
+            Sym::Unlinked => {
+                linked = false;
+                synced = false;
+                ev = false;
+            }
+            Sym::Synced => {
+                if linked && !synced {
+                    if ev {
+                        return true;
+                    }
+                    synced = true;
+                }
+            }
+            x if x.is_event() => {
+                if linked && !synced {
+                    ev = true;
+                }
+            }
+            _ => {}
+        }
+    }
+    false
+}
+
+struct Shared<'a> {
+    ctx: &'a Ctx,
+    wire: Wire,
+    patterns: Mutex<Vec<Pattern>>,
+    findings: Mutex<BTreeMap<String, ((usize, String, usize), String, Value)>>,
+    samples: Mutex<Vec<Value>>,
+}
+
+impl<'a> Shared<'a> {
+    fn record(&self, leg: &str, f: Finding) {
+        let mut g = self.findings.lock().unwrap();
+        match g.get(&f.sig) {
+            Some((k, _, _)) if *k <= f.key => {}
+            _ => {
+                g.insert(f.sig.clone(), (f.key, leg.to_string(), f.detail));
+            }
+        }
+    }
+}
+
+fn attribute(frozen: &[Pattern], target: Target, mode: Mode, cfg_idx: usize, seq: &[Sym], m: &Mismatch) -> bool {
+    frozen.iter().any(|p| {
+        p.target == target
+            && p.kind == mode.kind
+            && p.backing_btree == (mode.backing == Backing::BTree)
+            && p.cfgs[cfg_idx]
+            && p.desc == m.desc
+            && is_subseq(&p.classes, seq)
+    })
+}
+
+fn run_bfs(sh: &Shared, leg: &Bfs, cfg_idx: usize, t0: Instant, exhaustive: &AtomicBool, completed_depth: &mut usize) -> Stats {
+    let cfg = CFGS[cfg_idx];
+    let alpha = alphabet(leg.mode.kind, leg.local);
+    assert!(alpha.len() <= 32 && leg.depth <= 10);
+    let mut total = Stats::default();
+    let mut frontier = vec![Node::root(leg.mask)];
+    for depth in 1..=leg.depth {
+        if t0.elapsed().as_secs_f64() > leg.cap_s {
+            exhaustive.store(false, Ordering::SeqCst);
+            break;
+        }
+        let frozen: Vec<Pattern> = sh.patterns.lock().unwrap().clone();
+        let chunks: Vec<&[Node]> = frontier.chunks(256).collect();
+        let capped = AtomicBool::new(false);
+        let last = depth == leg.depth;
+        let results = vcommon::par_map(&chunks, vcommon::ncpu(), |_, chunk| {
+            let mut st = Stats::default();
+            let mut next: Vec<Node> = vec![];
+            let mut new_patterns: Vec<Pattern> = vec![];
+            if capped.load(Ordering::Relaxed) {
+                return (st, next, new_patterns, false);
+            }
+            if t0.elapsed().as_secs_f64() > leg.cap_s {
+                capped.store(true, Ordering::Relaxed);
+                return (st, next, new_patterns, false);
+            }
+            for parent in chunk.iter() {
+                let pseq = parent.syms(&alpha);
+                for (ai, a) in alpha.iter().enumerate() {
+                    let mut seq = pseq.clone();
+                    seq.push(*a);
+                    // legality by the reference alone
+                    let mut r = Ref::new(leg.mode.kind, cfg);
+                    let mut ok = true;
+                    for s in &seq {
+                        match r.step(*s).class {
+                            Class::Legal => {}
+                            Class::Redundant if leg.mode.tolerant => {}
+                            _ => {
+                                ok = false;
+                                break;
+                            }
+                        }
+                    }
+                    if !ok || r.post_term > 1 {
+                        continue;
+                    }
+                    st.states += 1;
+                    if presync_observed(&seq) {
+                        st.nontrivial += 1;
+                    }
+                    let mut mask = parent.mask();
+                    let mut outs: [Option<RunOut>; 2] = [None, None];
+                    for (bit, imp, slot) in [(CLIENT_OK, Imp::Client, 0usize), (HOSTED_OK, Imp::Hosted, 1usize)] {
+                        if mask & bit == 0 {
+                            continue;
+                        }
+                        st.evals += 1;
+                        st.transitions += seq.len() as u64;
+                        let out = run_one(imp, leg.mode.kind, cfg, &seq, &sh.wire, leg.mode.backing);
+                        let c = check(leg.mode.kind, cfg, imp, &seq, &out, leg.mode.tolerant);
+                        st.compared += c.compared_states as u64;
+                        if let Some(m) = c.mismatch {
+                            mask &= !(bit | DIFF_OK | if imp == Imp::Client { BURST_C_OK } else { BURST_H_OK });
+                            st.failing_prefixes += 1;
+                            if attribute(&frozen, Target::One(imp), leg.mode, cfg_idx, &seq, &m) || attribute(&new_patterns, Target::One(imp), leg.mode, cfg_idx, &seq, &m) {
+                                st.attributed += 1;
+                            } else {
+                                let f = minimise(Target::One(imp), leg.mode, cfg_idx, &seq, &m, leg.name, &sh.wire, &mut st.minimise_runs);
+                                new_patterns.extend(f.patterns.iter().cloned());
+                                sh.record(leg.name, f);
+                            }
+                        } else {
+                            let bbit = if imp == Imp::Client { BURST_C_OK } else { BURST_H_OK };
+                            if mask & bbit != 0 && seq.len() > 1 {
+                                st.evals += 1;
+                                st.transitions += seq.len() as u64;
+                                let b = run_mode(imp, leg.mode.kind, cfg, &seq, &sh.wire, leg.mode.backing, true);
+                                if let Some(m) = burst_differs(&out, &b) {
+                                    mask &= !bbit;
+                                    st.failing_prefixes += 1;
+                                    let t = Target::Burst(imp);
+                                    if attribute(&frozen, t, leg.mode, cfg_idx, &seq, &m) || attribute(&new_patterns, t, leg.mode, cfg_idx, &seq, &m) {
+                                        st.attributed += 1;
+                                    } else {
+                                        let f = minimise(t, leg.mode, cfg_idx, &seq, &m, leg.name, &sh.wire, &mut st.minimise_runs);
+                                        new_patterns.extend(f.patterns.iter().cloned());
+                                        sh.record(leg.name, f);
+                                    }
+                                }
+                            }
+                            outs[slot] = Some(out);
+                        }
+                    }
+                    if mask & DIFF_OK != 0 {
+                        if let (Some(a), Some(b)) = (&outs[0], &outs[1]) {
+                            if let Some(m) = differ(a, b) {
+                                mask &= !DIFF_OK;
+                                st.failing_prefixes += 1;
+                                if attribute(&frozen, Target::Diff, leg.mode, cfg_idx, &seq, &m) || attribute(&new_patterns, Target::Diff, leg.mode, cfg_idx, &seq, &m) {
+                                    st.attributed += 1;
+                                } else {
+                                    let f = minimise(Target::Diff, leg.mode, cfg_idx, &seq, &m, leg.name, &sh.wire, &mut st.minimise_runs);
+                                    new_patterns.extend(f.patterns.iter().cloned());
+                                    sh.record(leg.name, f);
+                                }
+                            }
+                        }
+                    }
+                    if !last && mask & (CLIENT_OK | HOSTED_OK) != 0 && r.post_term == 0 {
+                        next.push(parent.push(ai).with_mask(mask));
+                    }
+                }
+            }
+            (st, next, new_patterns, true)
+        });
+        let mut next_frontier = vec![];
+        let mut all_done = true;
+        let mut pats = sh.patterns.lock().unwrap();
+        for (st, next, np, done) in results {
+            total.add(&st);
+            next_frontier.extend(next);
+            for p in np {
+                if !pats.iter().any(|q| q.sig == p.sig && q.classes == p.classes && q.target == p.target) {
+                    pats.push(p);
+                }
+            }
+            all_done &= done;
+        }
+        pats.sort_by(|a, b| (a.classes.len(), &a.sig, &a.classes).cmp(&(b.classes.len(), &b.sig, &b.classes)));
+        drop(pats);
+        if !all_done {
+            exhaustive.store(false, Ordering::SeqCst);
+            break;
+        }
+        *completed_depth = depth;
+        frontier = next_frontier;
+        if frontier.is_empty() {
+            break;
+        }
+    }
+    total
+}
+
+fn bfs_leg(sh: &Shared, leg: Bfs) {
+    let t0 = Instant::now();
+    let exhaustive = AtomicBool::new(true);
+    let mut total = Stats::default();
+    let mut depths = vec![];
+    for cfg_idx in 0..CFGS.len() {
+        let mut done = 0;
+        let st = run_bfs(sh, &leg, cfg_idx, t0, &exhaustive, &mut done);
+        depths.push(json!({"cfg": CFGS[cfg_idx].text(), "depth_completed": done}));
+        total.add(&st);
+    }
+    // samples: a few legal sequences with their traces
+    let mut samples = vec![];
+    let sample_seqs: Vec<Vec<Sym>> = match leg.mode.kind {
+        Kind::Map => vec![
+            vec![Sym::Linked, Sym::Upd(1, 1), Sym::Upd(2, 2), Sym::Rem(1), Sym::Synced, Sym::Upd(2, 1)],
+            vec![Sym::Linked, Sym::Upd(1, 1), Sym::Upd(2, 1), Sym::Take(1), Sym::Synced, Sym::Unlinked],
+        ],
+        Kind::Value => vec![vec![Sym::Linked, Sym::Ev(1), Sym::Ev(2), Sym::Synced, Sym::Ev(1), Sym::Unlinked]],
+    };
+    for s in sample_seqs {
+        let imp = if leg.mask & CLIENT_OK != 0 { Imp::Client } else { Imp::Hosted };
+        let out = run_one(imp, leg.mode.kind, CFGS[3], &s, &sh.wire, leg.mode.backing);
+        samples.push(json!({"impl": imp.name(), "cfg": CFGS[3].text(), "seq": seq_text(&s), "callbacks": format!("{:?}", out.steps)}));
+    }
+    sh.samples.lock().unwrap().extend(samples.iter().cloned());
+    let ex = exhaustive.load(Ordering::SeqCst);
+    let targets: Vec<&str> = [
+        ("client", leg.mask & CLIENT_OK != 0),
+        ("hosted", leg.mask & HOSTED_OK != 0),
+        ("client==hosted", leg.mask & DIFF_OK != 0),
+        ("client burst==stepwise", leg.mask & BURST_C_OK != 0),
+        ("hosted burst==stepwise", leg.mask & BURST_H_OK != 0),
+    ]
+        .iter()
+        .filter(|x| x.1)
+        .map(|x| x.0)
+        .collect();
+    sh.ctx.add_leg(Leg {
+        name: leg.name.to_string(),
+        engine: "E2-sequence-enum".into(),
+        states: total.states,
+        transitions: total.transitions,
+        evaluations: total.evals,
+        distinct_nontrivial: total.nontrivial,
+        rule: "distinct (configuration, sequence) accepted by the legality acceptor and run; non-trivial = an event arrives while linked-but-unsynced and the link then syncs (the pre-sync fold is observed at on_synced)".into(),
+        samples,
+        exhaustive: ex,
+        bounds: json!({
+            "kind": leg.mode.kind.name(), "alphabet": alphabet(leg.mode.kind, leg.local).iter().map(|s| s.text()).collect::<Vec<_>>(),
+            "max_len": leg.depth, "configs": 4, "per_config": depths,
+            "targets": targets,
+            "state_snapshots_compared_with_fold": total.compared,
+            "failing_prefixes_not_extended": total.failing_prefixes,
+            "failing_prefixes_attributed_to_known_pattern": total.attributed,
+            "runs_spent_minimising": total.minimise_runs,
+            "accepts_redundant_inputs": leg.mode.tolerant,
+        }),
+        wall_s: t0.elapsed().as_secs_f64(),
+    });
+}
+
+// ------------------------------------------------------------------------------------------------
+// robustness leg: every sequence, legal or not
+
+fn robust_leg(sh: &Shared, kind: Kind, depth: usize, cap_s: f64) {
+    let t0 = Instant::now();
+    let alpha = alphabet(kind, true);
+    let a = alpha.len();
+    // all sequences of length 0..=depth, numbered smallest first; work items are index ranges
+    let mut starts = vec![0u64];
+    for l in 0..=depth {
+        let last = *starts.last().unwrap();
+        starts.push(last + (a as u64).pow(l as u32));
+    }
+    let n_total = *starts.last().unwrap();
+    let decode = |mut i: u64| -> Vec<Sym> {
+        let mut l = 0;
+        while i >= starts[l + 1] {
+            l += 1;
+        }
+        i -= starts[l];
+        let mut v = vec![alpha[0]; l];
+        for p in (0..l).rev() {
+            v[p] = alpha[(i % a as u64) as usize];
+            i /= a as u64;
+        }
+        v
+    };
+    let block = 1024u64;
+    let items: Vec<u64> = (0..n_total).step_by(block as usize).collect();
+    let capped = AtomicBool::new(false);
+    let mode = Mode { kind, tolerant: false, backing: Backing::Hash };
+    let results = vcommon::par_map(&items, vcommon::ncpu(), |_, start| {
+        let mut st = Stats::default();
+        for i in *start..(*start + block).min(n_total) {
+            if capped.load(Ordering::Relaxed) {
+                return (st, false);
+            }
+            if i % 64 == 0 && t0.elapsed().as_secs_f64() > cap_s {
+                capped.store(true, Ordering::Relaxed);
+                return (st, false);
+            }
+            let seq = decode(i);
+            st.states += CFGS.len() as u64;
+            let mut r = Ref::new(kind, CFGS[0]);
+            if seq.iter().any(|s| r.step(*s).class != Class::Legal) {
+                st.nontrivial += CFGS.len() as u64;
+            }
+            for (ci, cfg) in CFGS.iter().enumerate() {
+                for imp in [Imp::Client, Imp::Hosted] {
+                    st.evals += 1;
+                    st.transitions += seq.len() as u64;
+                    let out = run_one(imp, kind, *cfg, &seq, &sh.wire, Backing::Hash);
+                    if out.panic.is_some() || out.hang {
+                        let c = check(kind, *cfg, imp, &seq, &out, false);
+                        if let Some(m) = c.mismatch {
+                            st.failing_prefixes += 1;
+                            let f = minimise(Target::One(imp), mode, ci, &seq, &m, "robust", &sh.wire, &mut st.minimise_runs);
+                            sh.record("robust", f);
+                        }
+                    }
+                }
+            }
+        }
+        (st, true)
+    });
+    let mut total = Stats::default();
+    let mut all = true;
+    for (st, done) in results {
+        total.add(&st);
+        all &= done;
+    }
+    let name = format!("robust-{}", kind.name());
+    sh.ctx.add_leg(Leg {
+        name,
+        engine: "E4-sequence-enum".into(),
+        states: total.states,
+        transitions: total.transitions,
+        evaluations: total.evals,
+        distinct_nontrivial: total.nontrivial,
+        rule: "every sequence over the whole alphabet up to the length bound, run on both implementations in all four configurations for panic-freedom and quiescence; non-trivial = sequences a lane cannot produce".into(),
+        samples: vec![json!({"seq": "synced,linked,linked,synced,synced", "checked": "no panic, quiescence after every input and after closing the input"})],
+        exhaustive: all,
+        bounds: json!({"kind": kind.name(), "alphabet_size": a, "max_len": depth, "configs": 4, "impls": ["client", "hosted"]}),
+        wall_s: t0.elapsed().as_secs_f64(),
+    });
+}
+
+// ------------------------------------------------------------------------------------------------
+
+fn replay(ctx: &Ctx, sh: &Shared, r: &Value) {
+    let d = &r["detail"];
+    let bad = |what: &str| -> ! { vcommon::machinery_failure(&format!("replay file: bad {}", what)) };
+    let target = d["target"].as_str().and_then(Target::parse).unwrap_or_else(|| bad("target"));
+    let kind = d["kind"].as_str().and_then(Kind::parse).unwrap_or_else(|| bad("kind"));
+    let seq = d["seq"].as_str().and_then(parse_seq).unwrap_or_else(|| bad("seq"));
+    let ewns = d["cfg"]["ewns"].as_bool().unwrap_or_else(|| bad("cfg"));
+    let term = d["cfg"]["term"].as_bool().unwrap_or_else(|| bad("cfg"));
+    let cfg_idx = CFGS.iter().position(|c| c.ewns == ewns && c.term == term).unwrap();
+    let mode = Mode { kind, tolerant: d["tolerant"].as_bool().unwrap_or(false), backing: if d["backing"] == "btree" { Backing::BTree } else { Backing::Hash } };
+    let mut runs = 0;
+    match fails(target, mode, CFGS[cfg_idx], &seq, &sh.wire, &mut runs) {
+        Some(m) => {
+            eprintln!("replay: still fails at step {}: {:?}\n  expected {}\n  observed {}", m.step, m.desc, m.expected, m.observed);
+            let f = minimise(target, mode, cfg_idx, &seq, &m, "replay", &sh.wire, &mut runs);
+            ctx.violation("replay", &f.sig, f.detail);
+        }
+        None => eprintln!("replay: the case no longer fails"),
+    }
+}
+
 fn main() {
-    vcommon::machinery_failure("C08: engine not built yet");
+    std::panic::set_hook(Box::new(|_| {}));
+    let ctx = Ctx::from_env("C08");
+    let sh = Shared { ctx: &ctx, wire: Wire::new(), patterns: Mutex::new(vec![]), findings: Mutex::new(BTreeMap::new()), samples: Mutex::new(vec![]) };
+
+    if let Some(r) = ctx.replay_request() {
+        let r = r.clone();
+        replay(&ctx, &sh, &r);
+        ctx.finish("model_checking", "replay");
+    }
+
+    if let Ok(s) = std::env::var("C08_TRACE") {
+        // debugging aid: C08_TRACE="map;client;0;linked,upd:1:1,synced"
+        let p: Vec<&str> = s.split(';').collect();
+        let kind = Kind::parse(p[0]).unwrap();
+        let imp = Imp::parse(p[1]).unwrap();
+        let cfg = CFGS[p[2].parse::<usize>().unwrap()];
+        let seq = parse_seq(p[3]).unwrap();
+        let out = run_one(imp, kind, cfg, &seq, &sh.wire, Backing::Hash);
+        println!("{} {} {} {}\n{:#?}", kind.name(), imp.name(), cfg.text(), seq_text(&seq), out);
+        let c = check(kind, cfg, imp, &seq, &out, false);
+        println!("legal={} mismatch={:?}", c.legal, c.mismatch);
+        std::process::exit(0);
+    }
+
+    let q = ctx.quick();
+    let both = CLIENT_OK | HOSTED_OK | DIFF_OK;
+    let burst = BURST_C_OK | BURST_H_OK;
+    let hash = Backing::Hash;
+    let m = |kind, tolerant, backing| Mode { kind, tolerant, backing };
+    // value: alphabet 7 (5 without local writes); map: alphabet 21 (14 without local writes)
+    bfs_leg(&sh, Bfs { name: "legal-value", mode: m(Kind::Value, false, hash), local: true, depth: if q { 7 } else { 9 }, mask: both, cap_s: 200.0 });
+    bfs_leg(&sh, Bfs { name: "legal-value-notifications-only", mode: m(Kind::Value, false, hash), local: false, depth: if q { 8 } else { 10 }, mask: both | burst, cap_s: 200.0 });
+    bfs_leg(&sh, Bfs { name: "legal-map", mode: m(Kind::Map, false, hash), local: true, depth: if q { 5 } else { 7 }, mask: both, cap_s: if q { 40.0 } else { 700.0 } });
+    bfs_leg(&sh, Bfs { name: "legal-map-notifications-only", mode: m(Kind::Map, false, hash), local: false, depth: if q { 6 } else { 7 }, mask: both | burst, cap_s: if q { 40.0 } else { 500.0 } });
+    bfs_leg(&sh, Bfs { name: "redundant-client-value", mode: m(Kind::Value, true, hash), local: false, depth: if q { 7 } else { 9 }, mask: CLIENT_OK, cap_s: 100.0 });
+    bfs_leg(&sh, Bfs { name: "redundant-client-map", mode: m(Kind::Map, true, hash), local: false, depth: if q { 5 } else { 6 }, mask: CLIENT_OK, cap_s: if q { 20.0 } else { 300.0 } });
+    bfs_leg(&sh, Bfs { name: "hosted-map-btree-backing", mode: m(Kind::Map, false, Backing::BTree), local: false, depth: if q { 5 } else { 6 }, mask: HOSTED_OK, cap_s: if q { 20.0 } else { 300.0 } });
+    robust_leg(&sh, Kind::Value, if q { 6 } else { 8 }, 100.0);
+    robust_leg(&sh, Kind::Map, if q { 4 } else { 5 }, if q { 30.0 } else { 400.0 });
+
+    let findings = std::mem::take(&mut *sh.findings.lock().unwrap());
+    for (sig, (_, leg, detail)) in findings {
+        ctx.violation(&leg, &sig, detail);
+    }
+    ctx.assume("one input at a time, the task is run to quiescence after each (the interleaving of a local write with a notification that is already in flight is not explored here)");
+    ctx.assume("keys {1,2}, values {1,2}, take/drop counts {0,1}; i32 keys and values (Recon order == numeric order)");
+    ctx.assume("legality acceptor: linked only while unlinked; events and synced only while linked; synced at most once per link (value: only after an event); unlinked any time; local writes any time");
+    ctx.assume("tokio::select! start branch is not enumerated: with one input at a time at most one branch is ready");
+    ctx.finish(
+        "model_checking",
+        "bounded-exhaustive enumeration of notification / local-write sequences run on the real client DownlinkTask and the real hosted downlink channels, every lifecycle callback (with its state snapshot) compared with a reference fold, plus the differential law client == hosted",
+    );
 }
